@@ -17,7 +17,9 @@ import time
 
 VERIF = os.path.dirname(os.path.dirname(os.path.abspath(__file__)))
 REPO = os.environ.get("VERIF_REPO", "/repo")
-SCRATCH = os.environ.get("VERIF_SCRATCH", "/var/tmp/tgl-verif")
+import hashlib  # noqa: E402
+SCRATCH = os.environ.get("VERIF_SCRATCH") or os.path.join(
+    "/var/tmp/tgl-verif", hashlib.sha1(VERIF.encode()).hexdigest()[:8])
 CACHE = os.environ.get("VERIF_CACHE", os.path.join(VERIF, ".cache"))
 NCPU = os.cpu_count() or 4
 
@@ -290,11 +292,22 @@ def run_plan(ws, root, plan, idx, nslots, extra_args=None, tag=""):
 # --------------------------------------------------------------------------
 # concrete playback = native replay of the real code (no stubs)
 
-RE_PLAYBACK = re.compile(r"```\n(#\[test\]\nfn (kani_concrete_playback_\w+)\(\) \{.*?\n\})\n```", re.S)
+RE_PLAYBACK = re.compile(r"^```\n(.*?)\n```$", re.S | re.M)
 
 
 def extract_playbacks(txt):
-    return [(m.group(2), m.group(1)) for m in RE_PLAYBACK.finditer(txt)]
+    """-> [(test fn name, check kind, check description, test source)]"""
+    out = []
+    for m in RE_PLAYBACK.finditer(txt):
+        blk = m.group(1)
+        fm = re.search(r"fn (kani_concrete_playback_\w+)\(\)", blk)
+        if not fm:
+            continue
+        cm = re.search(r"/// Check for `([\w-]+)`: \"(.*)\"", blk)
+        kind, desc = (cm.group(1), cm.group(2)) if cm else ("?", "")
+        src = blk[blk.index("#[test]"):]
+        out.append((fm.group(1), kind, desc, src))
+    return out
 
 
 def decode_vals(test_src):
@@ -307,48 +320,47 @@ def decode_vals(test_src):
     return vals
 
 
-def native_replay(ws, root, crate, fq, hname, harness_file_in_ws, idx_extra=None):
+def native_replay(ws, root, crate, fq, hname, harness_file_in_ws):
     """Re-run the failing harness with concrete playback, append the generated
-    unit test(s) to the harness module of the scratch copy and run them natively
-    (dev and release): real code, no stubs.  -> (reproduced: bool|None, details)"""
+    unit test(s) for the FAILED checks to the harness module of the scratch copy
+    and run them natively with `cargo kani playback` (real code, kani stubs are
+    not applied).  -> (reproduced: bool|None, details)"""
     td = os.path.join(CACHE, "kt", f"{crate}-replay")
     lp = os.path.join(root, f"playback-{hname}.log")
     rc, wall = run_kani(ws, PACKAGE_OF[crate], [fq], td, lp, 1800, mem_gb=20,
                         extra=["-Z", "concrete-playback", "--concrete-playback=print"])
     txt = open(lp, "rb").read().replace(b"\x00", b"").decode("utf-8", "replace")
-    pbs = extract_playbacks(txt)
+    pbs = [p for p in extract_playbacks(txt) if p[1] != "cover"]
     if not pbs:
-        return None, {"reason": "kani produced no concrete playback test", "log": lp}
-    # append tests to the harness file
+        return None, {"reason": "kani produced no concrete playback test for a failed check", "log": lp}
     with open(harness_file_in_ws, "a") as f:
         f.write("\n// ---- concrete playback tests generated by kani ----\n")
-        for name, src in pbs:
-            f.write(src.replace("kani::concrete_playback_run(concrete_vals, ",
-                                "kani::concrete_playback_run(concrete_vals, super::" if False else
-                                "kani::concrete_playback_run(concrete_vals, ") + "\n")
+        for name, kind, desc, src in pbs:
+            f.write(src + "\n")
     out = {"tests": [], "log": lp}
     reproduced = False
-    for profile in ("dev", "release"):
-        for name, src in pbs:
-            cmd = ["cargo", "kani", "playback", "-Z", "concrete-playback", "-p", PACKAGE_OF[crate]]
-            if profile == "release":
-                cmd += ["--release"] if False else []
-            cmd += ["--", name, "--exact"] if False else ["--", name]
-            env = dict(os.environ)
-            env["CARGO_NET_OFFLINE"] = "true"
+    env = dict(os.environ)
+    env["CARGO_NET_OFFLINE"] = "true"
+    for name, kind, desc, src in pbs:
+        cmd = ["cargo", "kani", "playback", "-Z", "concrete-playback", "-p", PACKAGE_OF[crate],
+               "--", name]
+        try:
             r = subprocess.run(cmd, cwd=ws, env=env, stdout=subprocess.PIPE, stderr=subprocess.STDOUT,
                                timeout=1800)
             o = r.stdout.decode("utf-8", "replace")
-            failed = bool(re.search(r"test result: FAILED|panicked at", o))
-            passed = bool(re.search(r"test result: ok\. [1-9]", o))
-            m = re.search(r"panicked at (.*?)\n(.*?)\n", o)
-            out["tests"].append({"name": name, "profile": profile, "native_failed": failed,
-                                 "native_passed": passed,
-                                 "panic": (m.group(1) + " " + m.group(2))[:400] if m else None,
-                                 "vals": decode_vals(src)})
-            if failed:
-                reproduced = True
-        break  # release profile: see DESIGN (kani playback has no --release in 0.68)
+        except subprocess.TimeoutExpired:
+            o = "TIMEOUT"
+        failed = bool(re.search(r"test result: FAILED|panicked at", o))
+        passed = bool(re.search(r"test result: ok\. [1-9]", o))
+        m = re.search(r"panicked at (.*?)\n(.*?)\n", o)
+        out["tests"].append({"name": name, "check": f"{kind}: {desc}", "native_failed": failed,
+                             "native_passed": passed,
+                             "panic": (m.group(1) + " " + m.group(2))[:400] if m else None,
+                             "vals": decode_vals(src), "test_source": src})
+        if not failed and not passed:
+            out["tests"][-1]["output_tail"] = o[-1500:]
+        if failed:
+            reproduced = True
     return reproduced, out
 
 
